@@ -230,6 +230,25 @@ func (w *World) CheckSettled(after string) {
 		w.FailAny([]string{"C05", "C18", "C03", "C13", "C02", "C04"}, "settle:replica-with-fired-monitor-still-attached:"+after, "a replica whose monitor reported a failure (or was stopped) is still attached after 5s: "+w.Describe())
 		return
 	}
+	type failure struct{ prop, sig, what string }
+	var fails []failure
+	collect := func(prop, sig, what string) {
+		fails = append(fails, failure{prop, sig, what})
+	}
+	defer func() {
+		// report the clause of the property under check if it is among the failed ones, else the first
+		if len(fails) == 0 || w.Dead {
+			return
+		}
+		pick := fails[0]
+		for _, f := range fails {
+			if f.prop == w.Prop {
+				pick = f
+				break
+			}
+		}
+		w.Fail(pick.prop, pick.sig, pick.what)
+	}()
 	st := w.C.VerifState()
 	w.Res.Count("settled_points", 1)
 	rw, wo := modeCount(st, types.RW), modeCount(st, types.WO)
@@ -238,32 +257,26 @@ func (w *World) CheckSettled(after string) {
 	seen := map[string]bool{}
 	for _, r := range st.Replicas {
 		if seen[r.Address] {
-			w.Fail("C18", "dup-address", "address twice in replica list: "+digest(st, true))
-			return
+			collect("C18", "dup-address", "address twice in replica list: "+digest(st, true))
 		}
 		seen[r.Address] = true
 	}
 	if len(st.Replicas) > w.RF {
-		w.Fail("C18", "more-replicas-than-RF", fmt.Sprintf("%d data replicas with RF %d: %s", len(st.Replicas), w.RF, digest(st, true)))
-		return
+		collect("C18", "more-replicas-than-RF", fmt.Sprintf("%d data replicas with RF %d: %s", len(st.Replicas), w.RF, digest(st, true)))
 	}
 	if wo > 1 {
-		w.Fail("C18", "more-than-one-WO", digest(st, true))
-		return
+		collect("C18", "more-than-one-WO", digest(st, true))
 	}
 	if st.RWReplicaCount != rw {
-		w.Fail("C18", "rwcount-differs:"+after, fmt.Sprintf("RWReplicaCount=%d but %d RW entries: %s", st.RWReplicaCount, rw, digest(st, true)))
-		return
+		collect("C18", "rwcount-differs:"+after, fmt.Sprintf("RWReplicaCount=%d but %d RW entries: %s", st.RWReplicaCount, rw, digest(st, true)))
 	}
 	if len(st.Backends) != len(st.Replicas) {
-		w.Fail("C18", "backend-set-differs:"+after, digest(st, true))
-		return
+		collect("C18", "backend-set-differs:"+after, digest(st, true))
 	}
 	var expW, expR []string
 	for _, r := range st.Replicas {
 		if m, ok := st.Backends[r.Address]; !ok || m != r.Mode {
-			w.Fail("C18", "backend-mode-differs:"+after, digest(st, true))
-			return
+			collect("C18", "backend-mode-differs:"+after, digest(st, true))
 		}
 		if r.Mode != types.ERR {
 			expW = append(expW, r.Address)
@@ -275,12 +288,10 @@ func (w *World) CheckSettled(after string) {
 	sort.Strings(expW)
 	sort.Strings(expR)
 	if strings.Join(expW, ",") != strings.Join(st.Writers, ",") {
-		w.Fail("C18", "writer-set-differs:"+after, fmt.Sprintf("writers %v, non-ERR replicas %v", st.Writers, expW))
-		return
+		collect("C18", "writer-set-differs:"+after, fmt.Sprintf("writers %v, non-ERR replicas %v", st.Writers, expW))
 	}
 	if strings.Join(expR, ",") != strings.Join(st.Readers, ",") {
-		w.Fail("C18", "reader-set-differs:"+after, fmt.Sprintf("readers %v, RW replicas %v", st.Readers, expR))
-		return
+		collect("C18", "reader-set-differs:"+after, fmt.Sprintf("readers %v, RW replicas %v", st.Readers, expR))
 	}
 	// a detached replica receives no further calls
 	for _, f := range w.Order {
@@ -292,22 +303,19 @@ func (w *World) CheckSettled(after string) {
 		}
 		f.mu.Unlock()
 		if n > 0 {
-			w.Fail("C18", "call-after-detach:"+first, fmt.Sprintf("%s received %q after the controller closed it", f.Addr, first))
-			return
+			collect("C18", "call-after-detach:"+first, fmt.Sprintf("%s received %q after the controller closed it", f.Addr, first))
 		}
 	}
 	// C03
 	quorum := w.RF/2 + 1
 	if st.ReadOnly != (rw < quorum) {
-		w.Fail("C03", fmt.Sprintf("readonly-flag-wrong:%s", after), fmt.Sprintf("RF=%d, %d RW replicas (quorum %d) but ReadOnly=%v: %s", w.RF, rw, quorum, st.ReadOnly, digest(st, true)))
-		return
+		collect("C03", fmt.Sprintf("readonly-flag-wrong:%s", after), fmt.Sprintf("RF=%d, %d RW replicas (quorum %d) but ReadOnly=%v: %s", w.RF, rw, quorum, st.ReadOnly, digest(st, true)))
 	}
 	// C13 (iii),(iv)
 	if st.Checkpoint != "" {
 		w.Res.Count("settled_points_with_checkpoint", 1)
 		if rw != w.RF {
-			w.Fail("C13", "checkpoint-kept-without-all-RW:"+after, fmt.Sprintf("checkpoint %q recorded while %d of %d replicas are RW: %s", st.Checkpoint, rw, w.RF, digest(st, true)))
-			return
+			collect("C13", "checkpoint-kept-without-all-RW:"+after, fmt.Sprintf("checkpoint %q recorded while %d of %d replicas are RW: %s", st.Checkpoint, rw, w.RF, digest(st, true)))
 		}
 		for _, r := range st.Replicas {
 			f := w.Fakes[r.Address]
@@ -321,16 +329,13 @@ func (w *World) CheckSettled(after string) {
 				}
 			}
 			if !in {
-				w.Fail("C13", "checkpoint-not-in-chain:"+after, fmt.Sprintf("checkpoint %q is not in the chain of %s: %v", st.Checkpoint, r.Address, chain))
-				return
+				collect("C13", "checkpoint-not-in-chain:"+after, fmt.Sprintf("checkpoint %q is not in the chain of %s: %v", st.Checkpoint, r.Address, chain))
 			}
 			if cp != st.Checkpoint {
-				w.Fail("C13", "checkpoint-not-persisted:"+after, fmt.Sprintf("controller checkpoint %q, replica %s persisted %q", st.Checkpoint, r.Address, cp))
-				return
+				collect("C13", "checkpoint-not-persisted:"+after, fmt.Sprintf("controller checkpoint %q, replica %s persisted %q", st.Checkpoint, r.Address, cp))
 			}
 			if st.Checkpoint != w.lastCheckpoint && (len(chain) < 2 || chain[1] != st.Checkpoint) {
-				w.Fail("C13", "checkpoint-recorded-without-agreement:"+after, fmt.Sprintf("checkpoint %q newly recorded but latest snapshot of %s is %v", st.Checkpoint, r.Address, chain))
-				return
+				collect("C13", "checkpoint-recorded-without-agreement:"+after, fmt.Sprintf("checkpoint %q newly recorded but latest snapshot of %s is %v", st.Checkpoint, r.Address, chain))
 			}
 		}
 		if st.Checkpoint != w.lastCheckpoint {
